@@ -8,6 +8,7 @@ import (
 	"errors"
 	"fmt"
 	"io"
+	"runtime"
 	"strings"
 	"sync"
 	"testing"
@@ -203,6 +204,7 @@ func c14Case(rt *rapid.T, rec *vt.Rec) {
 	var trace []string
 	reordered, nestedSeen, earlyReply := false, false, false
 	failed := ""
+	falseStalls := 0
 	func() {
 		defer func() {
 			if r := recover(); r != nil {
@@ -271,7 +273,23 @@ func c14Case(rt *rapid.T, rec *vt.Rec) {
 						stuck = append(stuck, c.token)
 					}
 				}
-				failed = fmt.Sprintf("deadlock: calls %v never return although nothing is left to deliver", stuck)
+				// be sure before calling it a deadlock (DESIGN.md §8.4: the snapshot can catch a goroutine between two
+				// states under load): look again a few hundred times, yielding the processor in between
+				again := false
+				for retry := 0; retry < 300 && !again; retry++ {
+					for i := 0; i < 50; i++ {
+						runtime.Gosched()
+					}
+					sc.quiesce()
+					if len(sc.parkedList()) > 0 || ab.len() > 0 || ba.len() > 0 || sc.allDone() {
+						again = true
+						falseStalls++
+					}
+				}
+				if again {
+					continue
+				}
+				failed = fmt.Sprintf("deadlock: calls %v never return although nothing is left to deliver\ngoroutines:\n%s", stuck, strings.Join(bubbleLeftovers(), "\n\n"))
 				return
 			}
 			o := opts[0]
@@ -352,6 +370,20 @@ func c14Case(rt *rapid.T, rec *vt.Rec) {
 					}
 				}
 				if !isParked && !sc.isDone(o.idx) {
+					// second look before the verdict (same reason as for the deadlock verdict above)
+					for retry := 0; retry < 300 && !isParked && !sc.isDone(o.idx); retry++ {
+						for i := 0; i < 50; i++ {
+							runtime.Gosched()
+						}
+						sc.quiesce()
+						for _, p := range sc.parkedList() {
+							if p.task == o.idx {
+								isParked = true
+							}
+						}
+					}
+				}
+				if !isParked && !sc.isDone(o.idx) {
 					failed = fmt.Sprintf("call %s did not return promptly after its context was cancelled", c.token)
 					return
 				}
@@ -371,7 +403,7 @@ func c14Case(rt *rapid.T, rec *vt.Rec) {
 		ca.Close()
 		cb.Close()
 		wait()
-		rt.Fatalf("%s\ncallers: %v\nschedule:\n  %s", failed, names, hist())
+		c14Fatalf(rt, "%s\ncallers: %v\nschedule:\n  %s", failed, names, hist())
 	}
 	wait()
 	// drain late messages (replies to cancelled calls etc.) so that every request is handled and nothing is misdelivered
@@ -396,16 +428,16 @@ func c14Case(rt *rapid.T, rec *vt.Rec) {
 		switch {
 		case c.err == nil:
 			if c.result != want {
-				rt.Fatalf("call %s returned %q, its own reply is %q (another call's reply was delivered to it)\nschedule:\n  %s", c.token, c.result, want, hist())
+				c14Fatalf(rt, "call %s returned %q, its own reply is %q (another call's reply was delivered to it)\nschedule:\n  %s", c.token, c.result, want, hist())
 			}
 		case errors.Is(c.err, context.Canceled):
 			if !c.cancelled {
-				rt.Fatalf("call %s returned context.Canceled but was never cancelled\nschedule:\n  %s", c.token, hist())
+				c14Fatalf(rt, "call %s returned context.Canceled but was never cancelled\nschedule:\n  %s", c.token, hist())
 			}
 		default:
 			// a nested call of a cancelled outer call may fail with the cancellation error text
 			if !(cancels > 0 && strings.Contains(c.err.Error(), "context canceled")) {
-				rt.Fatalf("call %s failed: %v\nschedule:\n  %s", c.token, c.err, hist())
+				c14Fatalf(rt, "call %s failed: %v\nschedule:\n  %s", c.token, c.err, hist())
 			}
 		}
 	}
@@ -413,11 +445,11 @@ func c14Case(rt *rapid.T, rec *vt.Rec) {
 		svc.mu.Lock()
 		for k, n := range svc.handled {
 			if n != 1 {
-				rt.Fatalf("request %s was handled %d times on side %s\nschedule:\n  %s", k, n, svc.side, hist())
+				c14Fatalf(rt, "request %s was handled %d times on side %s\nschedule:\n  %s", k, n, svc.side, hist())
 			}
 		}
 		if len(svc.bad) > 0 {
-			rt.Fatalf("%s\nschedule:\n  %s", svc.bad[0], hist())
+			c14Fatalf(rt, "%s\nschedule:\n  %s", svc.bad[0], hist())
 		}
 		svc.mu.Unlock()
 	}
@@ -433,7 +465,7 @@ func c14Case(rt *rapid.T, rec *vt.Rec) {
 				n := svc.handled[fmt.Sprintf("%s#%d", c.token, d)]
 				svc.mu.Unlock()
 				if n != 1 {
-					rt.Fatalf("request %s depth %d was handled %d times\nschedule:\n  %s", c.token, d, n, hist())
+					c14Fatalf(rt, "request %s depth %d was handled %d times\nschedule:\n  %s", c.token, d, n, hist())
 				}
 			}
 		}
@@ -444,14 +476,21 @@ func c14Case(rt *rapid.T, rec *vt.Rec) {
 	<-serveDone
 	synctest.Wait()
 	if left := bubbleLeftovers(); len(left) > 0 {
-		rt.Fatalf("goroutines still blocked after both ends closed (a call or handler is wedged):\n%s\nschedule:\n  %s", strings.Join(left, "\n\n"), hist())
+		c14Fatalf(rt, "goroutines still blocked after both ends closed (a call or handler is wedged):\n%s\nschedule:\n  %s", strings.Join(left, "\n\n"), hist())
+	}
+	// let every pending timer of the bubble fire (contexts with deadlines, ...) and look again: whatever is still
+	// blocked then would make the bubble's end fail with a bare "deadlock" report instead of a diagnosis
+	time.Sleep(24 * time.Hour)
+	synctest.Wait()
+	if left := bubbleLeftovers(); len(left) > 0 {
+		c14Fatalf(rt, "goroutines still blocked a (virtual) day after both ends closed:\n%s\nschedule:\n  %s", strings.Join(left, "\n\n"), hist())
 	}
 	nontrivial := len(callers) >= 2 && (reordered || cancels > 0 || nestedSeen || writeFaults > 0)
 	var depths []int
 	for _, c := range callers {
 		depths = append(depths, c.depth)
 	}
-	rec.Case(fmt.Sprintf("ctl|%d|%d|%v|%v", nA, nB, depths, trace), nontrivial, []string{"ctl", fmt.Sprintf("ctl:cancels:%d", cancels), fmt.Sprintf("ctl:write-faults:%d", writeFaults), fmt.Sprintf("ctl:default-client:%v", defaultClient), fmt.Sprintf("ctl:early-reply:%v", earlyReply), fmt.Sprintf("ctl:nested:%v", nestedSeen)}, func() interface{} {
+	rec.Case(fmt.Sprintf("ctl|%d|%d|%v|%v", nA, nB, depths, trace), nontrivial, []string{"ctl", fmt.Sprintf("ctl:cancels:%d", cancels), fmt.Sprintf("ctl:write-faults:%d", writeFaults), fmt.Sprintf("ctl:default-client:%v", defaultClient), fmt.Sprintf("ctl:early-reply:%v", earlyReply), fmt.Sprintf("ctl:nested:%v", nestedSeen), fmt.Sprintf("ctl:stall-resolved-on-second-look:%v", falseStalls > 0)}, func() interface{} {
 		return map[string]interface{}{"kind": "controlled delivery", "callers_A": nA, "callers_B": nB, "depths": depths, "schedule": trace}
 	})
 }
@@ -522,22 +561,22 @@ func TestC14FreeRunning(t *testing.T) {
 				depths = append(depths, x.depth)
 				if x.err == nil {
 					if x.out != expectedEcho(x.token, x.depth) {
-						rt.Fatalf("call %s returned %q, want %q", x.token, x.out, expectedEcho(x.token, x.depth))
+						c14Fatalf(rt, "call %s returned %q, want %q", x.token, x.out, expectedEcho(x.token, x.depth))
 					}
 				} else if !x.dl {
-					rt.Fatalf("call %s failed without a deadline: %v", x.token, x.err)
+					c14Fatalf(rt, "call %s failed without a deadline: %v", x.token, x.err)
 				} else if !errors.Is(x.err, context.DeadlineExceeded) && !strings.Contains(x.err.Error(), "deadline exceeded") {
-					rt.Fatalf("call %s with a deadline failed with %v", x.token, x.err)
+					c14Fatalf(rt, "call %s with a deadline failed with %v", x.token, x.err)
 				}
 			}
 			for _, svc := range []*EchoSvc{svcA, svcB} {
 				svc.mu.Lock()
 				if len(svc.bad) > 0 {
-					rt.Fatalf("%s", svc.bad[0])
+					c14Fatalf(rt, "%s", svc.bad[0])
 				}
 				for k, n := range svc.handled {
 					if n != 1 {
-						rt.Fatalf("request %s handled %d times", k, n)
+						c14Fatalf(rt, "request %s handled %d times", k, n)
 					}
 				}
 				svc.mu.Unlock()
@@ -612,7 +651,7 @@ func TestC14ManyOutstanding(t *testing.T) {
 			arrived := hold.arrived
 			hold.mu.Unlock()
 			if arrived != n {
-				rt.Fatalf("%d calls were sent, %d requests reached the handler", n, arrived)
+				c14Fatalf(rt, "%d calls were sent, %d requests reached the handler", n, arrived)
 			}
 			cancelled := map[int]bool{}
 			for k := 0; k < nCancel; k++ {
@@ -629,12 +668,12 @@ func TestC14ManyOutstanding(t *testing.T) {
 				switch {
 				case cancelled[i]:
 					if r.err == nil && r.out != fmt.Sprintf("tok%d", i) {
-						rt.Fatalf("cancelled call %d returned %q", i, r.out)
+						c14Fatalf(rt, "cancelled call %d returned %q", i, r.out)
 					}
 				case r.err != nil:
-					rt.Fatalf("call %d of %d outstanding calls never got its reply: %v (pool server limits 50/10 configured: %v; below the limit, and without one, every outstanding call keeps its reply slot)", i, n, r.err, production)
+					c14Fatalf(rt, "call %d of %d outstanding calls never got its reply: %v (pool server limits 50/10 configured: %v; below the limit, and without one, every outstanding call keeps its reply slot)", i, n, r.err, production)
 				case r.out != fmt.Sprintf("tok%d", i):
-					rt.Fatalf("call %d returned %q, its own reply is %q", i, r.out, fmt.Sprintf("tok%d", i))
+					c14Fatalf(rt, "call %d returned %q, its own reply is %q", i, r.out, fmt.Sprintf("tok%d", i))
 				}
 			}
 			rec.Case(fmt.Sprintf("many|%d|%d|%v", n, len(cancelled), production), n > 50 || (production && n >= 10), []string{"many-outstanding", fmt.Sprintf("many-outstanding:>50:%v", n > 50), fmt.Sprintf("many-outstanding:pool-server-limits:%v", production)}, func() interface{} {
@@ -642,4 +681,11 @@ func TestC14ManyOutstanding(t *testing.T) {
 			})
 		})
 	})
+}
+
+// c14Fatalf prints the failure before failing: a failure inside a bubble that still holds blocked goroutines is
+// otherwise reported by the runtime as a bare "deadlock: main bubble goroutine has exited".
+func c14Fatalf(rt *rapid.T, format string, a ...interface{}) {
+	fmt.Printf("C14 FAILURE DETAIL: %.3000s\n", fmt.Sprintf(format, a...))
+	rt.Fatalf(format, a...)
 }
